@@ -18,6 +18,9 @@ import (
 type kind18 struct {
 	label string
 	mk    func() proto.Column
+	// blockType: how a server spells this kind's type in a block header when that differs
+	// from what the library's column reports (Decimal(P, S) for the fixed-width decimals)
+	blockType string
 }
 
 func kinds18() []kind18 {
@@ -28,9 +31,20 @@ func kinds18() []kind18 {
 		if !ok {
 			panic("C18: no registry entry " + l)
 		}
-		out = append(out, kind18{l, e.New})
+		out = append(out, kind18{label: l, mk: e.New})
 	}
-	out = append(out, kind18{"Enum8('x'=5,'y'=6)", func() proto.Column { return reg.Enum("Enum8('x' = 5, 'y' = 6)") }})
+	out = append(out, kind18{label: "Enum8('x'=5,'y'=6)", mk: func() proto.Column { return reg.Enum("Enum8('x' = 5, 'y' = 6)") }})
+	// decimals: the library's own spellings and the server's, on both sides of the 64 / 128 bit boundary
+	for _, d := range []struct{ label, col, block string }{
+		{"Decimal64", "Decimal64", ""}, {"Decimal128", "Decimal128", ""},
+		{"Decimal(18, 4)", "Decimal64", "Decimal(18, 4)"}, {"Decimal(19, 4)", "Decimal128", "Decimal(19, 4)"},
+	} {
+		e, ok := regtab.ByLabel(d.col)
+		if !ok {
+			panic("C18: no registry entry " + d.col)
+		}
+		out = append(out, kind18{label: d.label, mk: e.New, blockType: d.block})
+	}
 	return out
 }
 
@@ -47,6 +61,10 @@ func compatRef(b, t *refcol.Type) bool {
 	case eb(b, "Enum8", "") && t.Name == "Int8", eb(t, "Enum8", "") && b.Name == "Int8",
 		eb(b, "Enum16", "") && t.Name == "Int16", eb(t, "Enum16", "") && b.Name == "Int16":
 		return true
+	}
+	if strings.HasPrefix(b.Base, "Decimal") && strings.HasPrefix(t.Base, "Decimal") {
+		// Decimal(P, S) and DecimalN are the same type when the precision selects that width
+		return b.Width == t.Width
 	}
 	if b.Base != t.Base {
 		return false
@@ -145,7 +163,7 @@ type target18 struct {
 
 // C18 — result blocks bind only to compatible targets; mismatches are errors.
 func C18(c *vk.Ctx) {
-	c.Rule("block schemas of 0..2 columns (thorough 0..3) over 20 column kinds (integers, String, name-based Enum8 with two different definitions and raw Enum8, DateTime with / without zone, DateTime64(3)/(6), Array(String), Array(Enum8), Array(DateTime64(3))/(9), Map(String,String), LowCardinality(String), FixedString(3)/(8), Nullable(String)) x rows {0, 2} x target lists {equal kinds, every permutation, one renamed, one blank name, one extra, one missing, each position swapped for every other kind, Auto, none}; plus ordered pairs of blocks (second schema = first with one kind swapped — unrelated kinds and every parameter-only sibling — or one renamed) decoded into the same typed or inferred targets. Oracle: a reference compatibility predicate written from the property text decides accept / reject; on accept every target, read back as values of the BLOCK's type, holds exactly its own column's values, reports the block's precision / enum definition as adopted, and blank names are filled; on reject an error, and no target holds another column's data. distinct_nontrivial = (schema, targets, rows) cases.")
+	c.Rule("block schemas of 0..2 columns (thorough 0..3) over 24 column kinds (Decimal64 / Decimal128 and the server's spellings Decimal(18, 4) / Decimal(19, 4) of them, integers, String, name-based Enum8 with two different definitions and raw Enum8, DateTime with / without zone, DateTime64(3)/(6), Array(String), Array(Enum8), Array(DateTime64(3))/(9), Map(String,String), LowCardinality(String), FixedString(3)/(8), Nullable(String)) x rows {0, 2} x target lists {equal kinds, every permutation, one renamed, one blank name, one extra, one missing, each position swapped for every other kind, Auto, none}; plus ordered pairs of blocks (second schema = first with one kind swapped — unrelated kinds and every parameter-only sibling — or one renamed) decoded into the same typed or inferred targets. Oracle: a reference compatibility predicate written from the property text decides accept / reject; on accept every target, read back as values of the BLOCK's type, holds exactly its own column's values, reports the block's precision / enum definition as adopted, and blank names are filled; on reject an error, and no target holds another column's data. distinct_nontrivial = (schema, targets, rows) cases.")
 	kinds := kinds18()
 	maxCols := 2
 	if !c.Quick() {
@@ -159,6 +177,9 @@ func C18(c *vk.Ctx) {
 			panic(err)
 		}
 		types[i] = w.T
+		if k.blockType != "" {
+			types[i] = refcol.MustParse(k.blockType)
+		}
 	}
 	encode := func(cols []col18, rows int) []byte {
 		var bc []refcol.BlockCol
@@ -364,7 +385,7 @@ func C18(c *vk.Ctx) {
 	nk := len(kinds)
 	// second-block kinds: unrelated types and every parameter-only sibling
 	var pairKinds []int
-	for _, l := range []string{"UInt8", "String", "Enum8('a'=1,'b'=2,'c'=-3)", "FixedString(3)", "Enum8('x'=5,'y'=6)", "DateTime64(3)", "DateTime64(6)", "DateTime('UTC')", "Array(DateTime64(9))"} {
+	for _, l := range []string{"UInt8", "String", "Enum8('a'=1,'b'=2,'c'=-3)", "FixedString(3)", "Enum8('x'=5,'y'=6)", "DateTime64(3)", "DateTime64(6)", "DateTime('UTC')", "Array(DateTime64(9))", "Decimal(18, 4)", "Decimal(19, 4)"} {
 		for i, k := range kinds {
 			if k.label == l {
 				pairKinds = append(pairKinds, i)
